@@ -237,5 +237,22 @@ def harness_main(prop, run, replay=None):
                      {"traceback": tb[-1500:]})
         if not rep.rule:
             rep.rule = "harness aborted"
+    def clean(o):
+        # replay payloads may carry numpy scalars / non-string keys: never let the report become unreadable because of them
+        if isinstance(o, dict):
+            return {str(k): clean(v) for k, v in o.items()}
+        if isinstance(o, (list, tuple, set)):
+            return [clean(v) for v in o]
+        if isinstance(o, (str, int, float, bool)) or o is None:
+            return o
+        try:
+            import numpy as _np
+            if isinstance(o, _np.generic):
+                return o.item()
+            if isinstance(o, _np.ndarray):
+                return o.tolist()
+        except Exception:
+            pass
+        return str(o)
     with open(out, "w") as f:
-        json.dump(rep.to_json(), f, default=str)
+        json.dump(clean(rep.to_json()), f, default=str)
